@@ -11,9 +11,9 @@ FUNCTIONS = ['multi_knee.multi_knee', 'curvature.multi_knee', 'dfdt.multi_knee',
              'curvature.knee', 'dfdt.knee', 'menger.knee', 'lmethod.knee', 'kneedle.knee (inline layer)', 'linear_fit.linear_fit_points / smape_points / linear_r2_points']
 STUBS = ['K(l,r): free integer in the detector\'s range (1..len-2; 0..len-2 for a Menger-like detector; None allowed for a Kneedle-like detector) replaces the single-knee detector on points[l..r]',
          'gate(l,r): free real replaces linear_fit.smape_points / linear_r2_points of the end-point line on points[l..r]']
-BOUNDS = dict(quick='L1: n <= 7 points, t2 in {3,4}, cost in {smape, r2}, symbolic t1 >= 0, three detector range contracts (interior / Menger-like / Kneedle-like); '
+BOUNDS = dict(quick='L1: n <= 9 points, t2 in {3,4}, cost in {smape, r2}, symbolic t1 >= 0, three detector range contracts (interior / Menger-like / Kneedle-like); '
                     'L0: real detectors inline on slices of 4 pool curves (n <= 6), one symbolic height',
-              thorough='L1: n <= 9; L0: 8 pool curves, every position')
+              thorough='L1: n <= 11; L0: 8 pool curves, every position')
 ASSUMPTIONS = ['exact real arithmetic (T1)', 'L1: the detector is any function of the sub-range that respects its range contract (the contract itself is proved per detector in C09 / the inline layer)',
                'y >= 0, x strictly increasing']
 CONFIG = dict(quick=dict(budget_s=170, case_wall_s=150, max_paths=60000), thorough=dict(budget_s=1750, case_wall_s=1600, max_paths=1000000))
@@ -29,7 +29,7 @@ def cases(tier, seed):
         for pos in ([[n // 2]] if q else [[i] for i in range(n)]):
             for det in DETS:
                 out.append(dict(layer='L0', nra_at_decide=False, fn=det, curve=ci, pos=pos, int_range=[-3, 8]))
-    for n in range(7 if q else 9, 1, -1):
+    for n in range(9 if q else 11, 1, -1):
         for contract in ('interior', 'menger', 'kneedle'):
             for t2 in (3, 4):
                 for cost in ('smape', 'r2'):
@@ -146,4 +146,4 @@ LEVEL_TEXT = ('Bounded symbolic model checking. L1: the real multi_knee driver r
               'value per sub-range; for every n up to the bound, t2, cost and symbolic t1 every path is explored and z3 proves termination within n detector calls, strict ordering and '
               'range, the emptiness rule, and the self-similarity law by running the real driver three times in one path (whole curve, points[0..k], points[k+1..]) on the same oracle. '
               'L0: the five real detectors inline on slices of pool curves with the same assertions end-to-end (multi_knee vs knee on the same arrays).')
-LEVEL_NOTE = 'n <= 7/9 in L1 (every oracle behaviour), pool-curve slices (n <= 6, one symbolic height) in L0; exact reals (T1); Kneedle inline only with its default smoothing (exp uninterpreted).'
+LEVEL_NOTE = 'n <= 9/11 in L1 (every oracle behaviour), pool-curve slices (n <= 6, one symbolic height) in L0; exact reals (T1); Kneedle inline only with its default smoothing (exp uninterpreted).'
